@@ -22,6 +22,7 @@ RULE = (
     "components over an 11-symbol alphabet. Non-trivial query = it contains a wildcard or '**' and denotes at least one node, or a strict "
     "dead end below the first component; distinct_nontrivial counts cases with such a query."
     ' Also: names as str subclasses with their own __str__; 4 generated shards of sibling names with special-casing characters judged by folding-independent clauses (see assumptions).'
+    ' Also: foreign-separator priming, a path attribute re-entering the running resolver, trees mixing separators, all case-mapping groups of the special names.'
 )
 ASSUMPTIONS = [
     "reference evaluator with its own wildcard matcher (dynamic programming, no re/fnmatch); '**' = pre-order of the current node's subtree",
